@@ -520,6 +520,32 @@ def offset_specs(draw):
 
 
 @st.composite
+def touching_offset_specs(draw):
+    """ locations whose consecutive exons touch (join(1..5,6..14)), possibly over the origin """
+    length = draw(gen.lengths(4, 600))
+    total = draw(st.integers(2, min(length, 60)))
+    cuts = sorted(draw(st.lists(st.integers(1, total - 1), min_size=1, max_size=3, unique=True)))
+    start = draw(gen.coord(0, length - 1))
+    strand = draw(st.sampled_from([1, -1]))
+    parts = []
+    for lo, hi in zip([0] + cuts, cuts + [total]):
+        first, last = start + lo, start + hi
+        if first >= length:
+            parts.append([first - length, last - length])
+        elif last > length:
+            parts.append([first, length])
+            parts.append([0, last - length])
+        else:
+            parts.append([first, last])
+    if strand == -1:
+        parts.reverse()
+    loc = {"parts": parts, "strand": strand}
+    loc["kind"] = "span" if gen.is_span(loc) else "multi"
+    offset = draw(gen.coord(-2 * length, 2 * length, anchors=(0, length - start, -start, length)))
+    return {"L": length, "loc": loc, "k": offset, "wrap": True}
+
+
+@st.composite
 def bridge_specs(draw):
     length = draw(gen.lengths(2, 3000))
     return {"L": length, "loc": draw(gen.any_location(length))}
@@ -557,6 +583,7 @@ def run(ctx) -> None:
     ctx.hyp("pair", pair_specs(), max_examples=ctx.pick(2000, 60000), shards=rand_shards)
     ctx.hyp("pair", big_pair_specs(), max_examples=ctx.pick(600, 20000), shards=rand_shards)
     ctx.hyp("offset", big_offset_specs(), max_examples=ctx.pick(400, 10000), shards=rand_shards)
+    ctx.hyp("offset", touching_offset_specs(), max_examples=ctx.pick(600, 15000), shards=rand_shards)
     ctx.hyp("connect", connect_specs(), max_examples=ctx.pick(1500, 40000), shards=rand_shards)
     ctx.hyp("extend", extend_specs(), max_examples=ctx.pick(1000, 30000), shards=rand_shards)
     ctx.hyp("offset", offset_specs(), max_examples=ctx.pick(1500, 40000), shards=rand_shards)
